@@ -47,6 +47,8 @@ def fixedLitLens : Array Nat :=
   Array.ofFn (n := 288) fun i =>
     if i.val < 144 then 8 else if i.val < 256 then 9 else if i.val < 280 then 7 else 8
 def fixedDistLens : Array Nat := Array.replicate 32 5
+def fixedLitCode : Code := mkCode fixedLitLens
+def fixedDistCode : Code := mkCode fixedDistLens
 
 structure BlockInfo where
   final    : Bool
@@ -161,6 +163,10 @@ def copyStoredPartial (data : Array UInt8) (bytePos : Nat) (out : Array UInt8) :
     | none => out
     | some b => copyStoredPartial data (bytePos + 1) (out.push b) n
 
+/-- Append the record of a finished block. -/
+def pushBlock (blocks : Array BlockInfo) (info : BlockInfo) (pos outEnd : Nat) : Array BlockInfo :=
+  blocks.push { info with bitEnd := pos, outEnd := outEnd }
+
 /-- The blocks of a DEFLATE stream, from bit `pos`. -/
 def inflateBlocks (pre : Array UInt8) (maxDist : Nat) (data : Array UInt8) :
     Nat → Nat → Array UInt8 → Array BlockInfo → Verdict (Nat × Array UInt8 × Array BlockInfo)
@@ -173,13 +179,12 @@ def inflateBlocks (pre : Array UInt8) (maxDist : Nat) (data : Array UInt8) :
       let btype := hdr / 2
       let start := pos
       let pos := pos + 3
-      let finish (pos : Nat) (out' : Array UInt8) (info : BlockInfo) :=
-        let blocks := blocks.push { info with final := final, btype := btype, bitStart := start,
-                                               bitEnd := pos, outStart := out.size, outEnd := out'.size }
-        if final then Verdict.accept (pos, out', blocks)
-        else inflateBlocks pre maxDist data fuel pos out' blocks
-      let blank : BlockInfo := { final := false, btype := 0, bitStart := 0, bitEnd := 0, outStart := 0,
-                                 outEnd := 0, litLens := #[], distLens := #[], clenLens := #[], tokens := #[] }
+      let outStart := out.size
+      -- (no closure over `out`/`blocks` here: a captured reference would force a copy of the
+      --  whole array on the next push)
+      let blank : BlockInfo := { final := final, btype := btype, bitStart := start, bitEnd := 0,
+                                 outStart := outStart, outEnd := 0, litLens := #[], distLens := #[],
+                                 clenLens := #[], tokens := #[] }
       if btype = 0 then
         let bpos := (pos + 7) / 8
         match bitsAt data (8 * bpos) 16, bitsAt data (8 * bpos + 16) 16 with
@@ -187,12 +192,16 @@ def inflateBlocks (pre : Array UInt8) (maxDist : Nat) (data : Array UInt8) :
           if len + nlen ≠ 65535 then .reject .storedLen
           else match copyStored data (bpos + 4) out len with
             | none => .truncated (copyStoredPartial data (bpos + 4) out len)
-            | some out' => finish (8 * (bpos + 4 + len)) out' blank
+            | some out' =>
+              let pos' := 8 * (bpos + 4 + len)
+              let blocks := pushBlock blocks blank pos' out'.size
+              if final then .accept (pos', out', blocks) else inflateBlocks pre maxDist data fuel pos' out' blocks
         | _, _ => .truncated out
       else if btype = 1 then
-        match decodeTokens pre maxDist (mkCode fixedLitLens) (mkCode fixedDistLens) data fuel pos out #[] with
+        match decodeTokens pre maxDist fixedLitCode fixedDistCode data fuel pos out #[] with
         | .accept (pos, out', toks) =>
-          finish pos out' { blank with litLens := fixedLitLens, distLens := fixedDistLens, tokens := toks }
+          let blocks := pushBlock blocks { blank with litLens := fixedLitLens, distLens := fixedDistLens, tokens := toks } pos out'.size
+          if final then .accept (pos, out', blocks) else inflateBlocks pre maxDist data fuel pos out' blocks
         | .reject w => .reject w
         | .truncated p => .truncated p
         | .fuel => .fuel
@@ -215,8 +224,8 @@ def inflateBlocks (pre : Array UInt8) (maxDist : Nat) (data : Array UInt8) :
                   else if !codeValid .dist distLens then .reject .distCode
                   else match decodeTokens pre maxDist (mkCode litLens) (mkCode distLens) data fuel pos out #[] with
                     | .accept (pos, out', toks) =>
-                      finish pos out' { blank with litLens := litLens, distLens := distLens,
-                                                   clenLens := clens, tokens := toks }
+                      let blocks := pushBlock blocks { blank with litLens := litLens, distLens := distLens, clenLens := clens, tokens := toks } pos out'.size
+                      if final then .accept (pos, out', blocks) else inflateBlocks pre maxDist data fuel pos out' blocks
                     | .reject w => .reject w
                     | .truncated p => .truncated p
                     | .fuel => .fuel
